@@ -794,7 +794,7 @@ impl Engine for C15 {
     fn default_runs(&self, tier: Tier) -> u64 {
         match tier {
             Tier::Quick => 6_000,
-            Tier::Thorough => 400_000,
+            Tier::Thorough => 300_000,
         }
     }
     fn init(&self) {
